@@ -232,10 +232,14 @@ class CFG:
             n.meta['inlined_from'] = self._inlining[-1]
         if self._deferred:
             n.meta['deferred'] = True
+        if getattr(self, '_in_assert', 0):
+            n.meta['in_assert'] = True      # part of the evaluation of an assert's test: an observation, not an action
         for src, label in self.cur:
             self._edge(src, n, label)
         self.cur = [(n, 'seq')]
         raises, suspends = self.model.raises(self, n)
+        if getattr(self, '_in_assert', 0) and kind != 'await':
+            raises = set()
         n.suspends = suspends
         n.raises = frozenset(raises)
         if n.raises:
@@ -515,8 +519,14 @@ class CFG:
     def _s_Assert(self, s: ast.Assert) -> None:
         # Assumption (DESIGN 2.2): assert statements hold.  They are the author's stated invariants and vanish under
         # `python -O`; the test is still evaluated (its calls can raise, its outcome narrows None-ness / flags on the
-        # way on), the failing edge is taken to be infeasible.
-        t, f = self._cond(s.test)
+        # way on), the failing edge is taken to be infeasible.  "Holds" includes "can be evaluated": a subscript, attribute or
+        # call in the test that raised would be a failing invariant just the same, so the test's own exception edges are
+        # not drawn (awaits keep theirs: a suspension point is a suspension point).
+        self._in_assert = getattr(self, '_in_assert', 0) + 1
+        try:
+            t, f = self._cond(s.test)
+        finally:
+            self._in_assert -= 1
         self.asserts_assumed += 1
         self.cur = t
 
@@ -852,6 +862,10 @@ class CFG:
             if e.value:
                 return self.cur, []
             return [], self.cur
+        if isinstance(e, (ast.Tuple, ast.List)) and e.elts and not any(isinstance(x, ast.Starred) for x in e.elts):
+            # a non-empty display is true; its elements are evaluated (walrus bindings of a desugared `case` pattern)
+            self._expr(e)
+            return self.cur, []
         call = e.value if isinstance(e, ast.Await) and isinstance(e.value, ast.Call) else e
         if isinstance(call, ast.Call):
             # `if helper(x):` with an inlinable helper: as `t = helper(x); if t:` - the constants the helper returns are
@@ -873,7 +887,11 @@ class CFG:
                 b = self._node('branch', test, test=test, synthetic=True, original_test=e)
                 return [(b, 'true')], [(b, 'false')]
         self._expr(e)
-        b = self._node('branch', e, test=e)
+        # a test inside an assert is an invariant the author states, not a decision the code takes: its node has its own kind
+        # ('assume'), so that only the path queries (narrowing) see it and no rule mistakes it for a guard
+        b = self._node('assume' if getattr(self, '_in_assert', 0) else 'branch', e, test=e)
+        if getattr(self, '_in_assert', 0):
+            b.meta['in_assert'] = True
         return [(b, 'true')], [(b, 'false')]
 
     def _expr(self, e: Optional[ast.AST]) -> None:
